@@ -137,6 +137,7 @@ func runC06(w *World, r *Report) {
 	r.Rule("C06/WIRING", "the dry-run options are never fed from a differently named option, and upgrade --install carries DryRun and DryRunOption over to the install it starts", 3)
 	checkWiring(w, r, "C06/WIRING", map[string]bool{"DryRun": true, "DryRunOption": true, "ClientOnly": true})
 	checkCarried(w, r, "C06/WIRING", []string{"DryRun", "DryRunOption"})
+	checkFlagBinding(w, r, "C06/WIRING", map[string]bool{"DryRun": true, "DryRunOption": true, "ClientOnly": true})
 	c06Validator(w, r)
 	c06Template(w, r)
 	c06ClientOnly(w, r, ef)
